@@ -24,6 +24,16 @@ Predicted == qs = <<>> => \A i \in DOMAIN Family : Family[i].fam = "cantor" => C
 \* the same graph with the first and the last variable living in one component (no edge joins them directly: a connection
 \* links two different components, but they may well be linked through the others)
 SharedHome == <<1, N>> \notin edges /\ <<N, 1>> \notin edges
+\* histories with edits: every ordered pair is asked, one edge is removed, every pair is asked again in the opposite order,
+\* an edge that was not there is added, asked, removed again, asked: the answers follow the graph of the moment
+\* (items <<"cut", a, b>> / <<"join", a, b>> change the graph; an analyser model taken before an edit is not asked after it)
+AllVarQ(desc) == LET ps == SetToSeq({p \in Pairs : p[1] # p[2]}) IN
+                 [i \in DOMAIN ps |-> LET p == ps[IF desc THEN Len(ps) + 1 - i ELSE i] IN <<"var", p[1] - 1, p[2] - 1>>]
+EditHistory(e) == LET non == Edges \ edges
+                      f == IF non = {} THEN e ELSE CHOOSE x \in non : \A y \in non : x[1] < y[1] \/ (x[1] = y[1] /\ x[2] <= y[2])
+                  IN AllVarQ(FALSE) \o <<<<"cut", e[1] - 1, e[2] - 1>>>> \o AllVarQ(TRUE) \o <<<<"join", f[1] - 1, f[2] - 1>>>> \o AllVarQ(FALSE)
+                     \o <<<<"cut", f[1] - 1, f[2] - 1>>>> \o AllVarQ(TRUE)
+EmitEdits == qs = <<>> => \A e \in edges : EmitScenario([kind |-> "graph", n |-> N, edges |-> SetToSeq({<<x[1] - 1, x[2] - 1>> : x \in edges}), queries |-> EditHistory(e)])
 Emit == Len(qs) = L =>
         /\ EmitScenario([kind |-> "graph", n |-> N, edges |-> SetToSeq({<<e[1] - 1, e[2] - 1>> : e \in edges}), queries |-> qs \o [i \in DOMAIN qs |-> <<"var", qs[i][2], qs[i][3]>>]])
         /\ SharedHome => EmitScenario([kind |-> "graph", n |-> N, homes |-> [i \in 1..N |-> IF i = N THEN 0 ELSE i - 1],
